@@ -18,6 +18,8 @@ class CallMixin:
 
     # ---- contract lookup ------------------------------------------------------------------------
     def short_name(self, fi: FuncInfo) -> str:
+        if fi.kind == "slice":
+            return f"{fi.cls.name}.{fi.qualname.rsplit('.', 1)[-1]}" if fi.cls else fi.qualname
         suffix = ".fset" if fi.kind == "setter" else ""
         if fi.cls is not None:
             return f"{fi.cls.name}.{fi.node.name}{suffix}"
@@ -282,7 +284,8 @@ class CallMixin:
         prev = (self.cur_module, self.cur_func_name)
         self.cur_module = fi.module
         # loop specs are keyed by the short name of the *source* function being executed
-        self.cur_func_name = self.short_name(fi) if fi.qualname in self.prog.functions else self.cur_func_name
+        self.cur_func_name = self.short_name(fi) if (fi.qualname in self.prog.functions or fi.kind == "slice") \
+            else self.cur_func_name
         self.register_loops(fi)
         try:
             outs = self.ex_block(s2, fi.node.body)
@@ -294,7 +297,7 @@ class CallMixin:
             if self.depth == 0:
                 self.last_locals[id(so)] = dict(o.st.locals)
             so.locals, so.frame = saved
-            if o.kind == "ok":
+            if o.kind == "ok" or (o.kind == "cnt" and fi.kind == "slice"):
                 res.append(Out("ret", so, VNone))
             elif o.kind in ("ret", "exc"):
                 res.append(Out(o.kind, so, o.val))
